@@ -6,11 +6,17 @@
    1. the point–segment kernel `psd2` (= `line_segment_distance²`) is the exact minimum over the
       closed segment, is attained, vanishes exactly on the segment;
    2. `Line × Line`: zero ⇔ the segments share a point; symmetric; otherwise one of the four
-      end-point distances and below all four;
+      end-point distances and below all four; **T2** `segseg_min_at_endpoint`: for disjoint segments
+      the smallest end-point distance is the minimum of `|a(s) − c(t)|²` over the whole unit square,
+      hence `Line × Line` is the true minimum over all pairs of points (`IsMinDist`);
    3. `fold(max_value, min)`: result attained by an element, lower bound of all, zero ⇔ an element is;
-   4. `nearest_neighbour_distance`: symmetric, the minimum over all vertex–segment pairs (both ways);
+   4. `nearest_neighbour_distance`: symmetric, the minimum over all vertex–segment pairs (both ways)
+      and — for line strings whose segments do not meet — over all pairs of points; `Line × LineString`
+      and `LineString × LineString` are the true minimum over all pairs of points;
    5. every kernel is non-negative and does not panic on operands with at least one segment;
-      the short-circuits give zero; dispatch (`calls`) lifts 3 to `distG`;
+      the short-circuits give zero; dispatch (`calls`) lifts 3 to `distG`; between operands of
+      dimension ≤ 1 (Point, Line, LineString and their Multi*/collections) `distG` is the true minimum
+      over all pairs of points of all pairs of parts (Point × LineString: where K4 does not strike);
    6. symmetry by construction of the mixed pairs, wrapper invariance (Rect/Triangle as Polygon,
       singleton Multi*, collection of one);
    7. finding K4: `Point × LineString` is zero exactly on the line string *only* where the
@@ -19,6 +25,7 @@
 import GeoProofs.Lemmas.C07Kernels
 import GeoProofs.Lemmas.C07Dispatch
 import GeoProofs.Lemmas.C07Bbox
+import GeoProofs.Lemmas.C07PBase
 
 namespace Geo.Proofs.C07
 open Geo Geo.Proofs.Kernel
@@ -91,6 +98,44 @@ theorem lineLine_dist_endpoint (a b c d : Pt) (h : lineLine a b c d = false) :
 
 example : lineLine ⟨0, 0⟩ ⟨5, 0⟩ ⟨2, 1⟩ ⟨7, 2⟩ = false := by decide +kernel
 
+/-- **T2 `segseg_min_at_endpoint`**: for two closed segments without a common point the minimum of
+`|a + s(b−a) − (c + t(d−c))|²` over `(s,t) ∈ [0,1]²` is the smallest of the four end-point–to–segment
+distances `psd2` — it bounds every value from below, is attained on the square, and is what
+`Line × Line` returns. (A convex quadratic without a zero on the square has no interior minimum:
+about the meeting point of the carrier lines it is homogeneous of degree 2, and for parallel
+directions it is constant along `s − k·t = const`; both paths reach the boundary of the square, where
+the function is a point–segment distance.) -/
+theorem segseg_min_at_endpoint (a b c d : Pt) (h : lineLine a b c d = false) :
+    (∀ s t : Rat, 0 ≤ s → s ≤ 1 → 0 ≤ t → t ≤ 1 →
+      min (min (psd2 a c d) (psd2 b c d)) (min (psd2 c a b) (psd2 d a b)) ≤
+        dist2 ⟨a.x + s * (b.x - a.x), a.y + s * (b.y - a.y)⟩ ⟨c.x + t * (d.x - c.x), c.y + t * (d.y - c.y)⟩) ∧
+    (∃ s t : Rat, 0 ≤ s ∧ s ≤ 1 ∧ 0 ≤ t ∧ t ≤ 1 ∧
+      min (min (psd2 a c d) (psd2 b c d)) (min (psd2 c a b) (psd2 d a b)) =
+        dist2 ⟨a.x + s * (b.x - a.x), a.y + s * (b.y - a.y)⟩ ⟨c.x + t * (d.x - c.x), c.y + t * (d.y - c.y)⟩) ∧
+    lineLine2 a b c d = .fin (min (min (psd2 a c d) (psd2 b c d)) (min (psd2 c a b) (psd2 d a b))) := by
+  have hno : ¬ ∃ p, SegMem p a b ∧ SegMem p c d := by
+    intro hc
+    have := (lineLine_iff a b c d).mpr hc
+    rw [h] at this; cases this
+  refine ⟨fun s t s0 s1 t0 t1 => segseg_min4_le_param hno ⟨s0, s1⟩ ⟨t0, t1⟩, ?_, lineLine2_eq_min4 h⟩
+  obtain ⟨x, y, hx, hy, e⟩ := min4_attained a b c d
+  obtain ⟨s, s0, s1, rfl⟩ := (SegMem_iff_segPt x a b).mp hx
+  obtain ⟨t, t0, t1, rfl⟩ := (SegMem_iff_segPt y c d).mp hy
+  exact ⟨s, t, s0, s1, t0, t1, e⟩
+
+example : min (min (psd2 ⟨0, 0⟩ ⟨2, 1⟩ ⟨7, 2⟩) (psd2 ⟨5, 0⟩ ⟨2, 1⟩ ⟨7, 2⟩))
+      (min (psd2 ⟨2, 1⟩ ⟨0, 0⟩ ⟨5, 0⟩) (psd2 ⟨7, 2⟩ ⟨0, 0⟩ ⟨5, 0⟩)) ≤
+    dist2 ⟨0 + (1/2) * (5 - 0), 0 + (1/2) * (0 - 0)⟩ ⟨2 + (1/3) * (7 - 2), 1 + (1/3) * (2 - 1)⟩ :=
+  (segseg_min_at_endpoint ⟨0, 0⟩ ⟨5, 0⟩ ⟨2, 1⟩ ⟨7, 2⟩ (by decide +kernel)).1 (1/2) (1/3)
+    (by norm_num) (by norm_num) (by norm_num) (by norm_num)
+
+/-- **Line × Line is the true minimum distance** of the two closed segments (intersecting or not):
+`IsMinDist A B m` = `m ≤ |x − y|²` for all `x ∈ A`, `y ∈ B`, with equality for some pair -/
+theorem lineLine_dist_is_min (a b c d : Pt) :
+    ∃ m, lineLine2 a b c d = .fin m ∧ IsMinDist (fun x => SegMem x a b) (fun y => SegMem y c d) m := by
+  obtain ⟨m, hm⟩ := lineLine2_finite a b c d
+  exact ⟨m, hm, lineLine2_IsMinDist a b c d hm⟩
+
 /-! ### 3. the `fold(max_value, min)` idiom -/
 
 /-- **min-fold**: over non-negative (non-panicking) values the fold is zero iff an element is -/
@@ -125,6 +170,33 @@ theorem nn_is_min {g1 g2 : List Pt} (h1 : segs g1 ≠ []) (h2 : segs g2 ≠ []) 
   ⟨nnDist2_le h1 h2 hm, nnDist2_attained h1 h2 hm⟩
 
 example : segs [(⟨0, 0⟩ : Pt), ⟨1, 0⟩] ≠ [] := by simp [segs]
+
+/-- **nearest_neighbour_distance is the true minimum** over all pairs of points (not only vertex–segment
+pairs) of two line strings none of whose segments meet — by `segseg_min_at_endpoint`.
+`LsPts cs x` = `x` lies on a segment of `cs`. -/
+theorem nn_is_true_min {g1 g2 : List Pt} (h1 : segs g1 ≠ []) (h2 : segs g2 ≠ [])
+    (hno : ∀ s ∈ segs g1, ∀ t ∈ segs g2, lineLine s.1 s.2 t.1 t.2 = false) :
+    ∃ m, nnDist2 g1 g2 = .fin m ∧ IsMinDist (LsPts g1) (LsPts g2) m := by
+  obtain ⟨m, hm⟩ := nnDist2_finite h1 h2
+  refine ⟨m, hm, nnDist2_IsMinDist h1 h2 (fun s hs t ht hc => ?_) hm⟩
+  have := (lineLine_iff _ _ _ _).mpr hc
+  rw [hno s hs t ht] at this; cases this
+
+example : ∀ s ∈ segs [(⟨0, 0⟩ : Pt), ⟨1, 0⟩, ⟨1, 1⟩], ∀ t ∈ segs [(⟨3, 0⟩ : Pt), ⟨4, 2⟩],
+    lineLine s.1 s.2 t.1 t.2 = false := by decide +kernel
+
+/-- **LineString × LineString is the true minimum** over all pairs of points of the two line strings
+(zero through the `intersects` short-circuit exactly when they share a point) -/
+theorem lsLs_dist_is_min {as bs : List Pt} (h1 : segs as ≠ []) (h2 : segs bs ≠ []) :
+    ∃ m, lsLs2 as bs = .fin m ∧ IsMinDist (LsPts as) (LsPts bs) m := by
+  obtain ⟨m, hm⟩ := lsLs2_finite h1 h2
+  exact ⟨m, hm, lsLs2_IsMinDist h1 h2 hm⟩
+
+/-- **Line × LineString is the true minimum** over all pairs of points -/
+theorem lineLs_dist_is_min (a b : Pt) {cs : List Pt} (h : segs cs ≠ []) :
+    ∃ m, lineLs2 a b cs = .fin m ∧ IsMinDist (fun x => SegMem x a b) (LsPts cs) m := by
+  obtain ⟨m, hm⟩ := lineLs2_finite a b h
+  exact ⟨m, hm, lineLs2_IsMinDist a b cs hm⟩
 
 theorem nn_zero_iff {g1 g2 : List Pt} (h1 : segs g1 ≠ []) (h2 : segs g2 ≠ []) :
     nnDist2 g1 g2 = .fin 0 ↔ (∃ q ∈ g2, OnLs q g1) ∨ (∃ q ∈ g1, OnLs q g2) :=
@@ -233,6 +305,40 @@ theorem distG_is_min {a b : Geom} (h : CallsOk a b) {m : Rat} (hm : distG a b = 
     (∃ xy ∈ calls a b, baseD xy.1 xy.2 = .fin m) ∧ ∀ xy ∈ calls a b, DV.Lb m (baseD xy.1 xy.2) :=
   foldMin_fin (fun xy hxy => baseD_nonneg (h xy hxy).1 (h xy hxy).2) hm
 
+/-- **true minimum, single-part operands of dimension ≤ 1** (Point, Line, LineString with a segment):
+every one of the nine pairs returns the minimum of `|x − y|²` over all pairs of points of the two
+operands. `tolOk` is vacuous except for Point × LineString, where it excludes finding K4.
+   full statement (false on the pinned tree for Point × LineString, `tolerance_false_positive_witness`):
+   theorem baseD_linear_is_min (hx : linOk x) (hy : linOk y) : ∃ m, baseD x y = .fin m ∧ IsMinDist … m -/
+theorem baseD_linear_is_min_partial {x y : Base} (hx : linOk x) (hy : linOk y) (ht : tolOk x y) :
+    ∃ m, baseD x y = .fin m ∧ IsMinDist (linPts x) (linPts y) m :=
+  baseD_lin_IsMinDist hx hy ht
+
+example : linOk (.ls [⟨0, 0⟩, ⟨2, 2⟩]) ∧ linOk (.pt ⟨1, 2⟩) ∧ tolOk (.ls [⟨0, 0⟩, ⟨2, 2⟩]) (.pt ⟨1, 2⟩) := by
+  refine ⟨by simp [linOk, segs], trivial, ?_⟩
+  intro h; exact absurd h (by decide +kernel)
+
+/-- **true minimum lifted through the dispatch**: when all single-part calls of `distance(a, b)` are
+between operands of dimension ≤ 1 (Point, Line, LineString, MultiPoint, MultiLineString and
+collections of these), a finite distance is the minimum of `|x − y|²` over all pairs of points of all
+pairs of parts the dispatch visits: a lower bound for every such pair, attained by one.
+(`_partial`: `tolOk` excludes finding K4 on the Point × LineString calls.) -/
+theorem distG_linear_is_min_partial {a b : Geom}
+    (h : ∀ xy ∈ calls a b, linOk xy.1 ∧ linOk xy.2 ∧ tolOk xy.1 xy.2) {m : Rat} (hm : distG a b = .fin m) :
+    (∀ xy ∈ calls a b, ∀ x y, linPts xy.1 x → linPts xy.2 y → m ≤ dist2 x y) ∧
+    ∃ xy ∈ calls a b, ∃ x y, linPts xy.1 x ∧ linPts xy.2 y ∧ m = dist2 x y :=
+  callFold_IsMinDist h hm
+
+example : ∀ xy ∈ calls (.multiLineString [[⟨0, 0⟩, ⟨1, 0⟩], [⟨0, 2⟩, ⟨1, 3⟩]]) (.line ⟨5, 5⟩ ⟨6, 7⟩),
+    linOk xy.1 ∧ linOk xy.2 ∧ tolOk xy.1 xy.2 := by
+  intro xy hxy
+  have hc : calls (.multiLineString [[⟨0, 0⟩, ⟨1, 0⟩], [⟨0, 2⟩, ⟨1, 3⟩]]) (.line ⟨5, 5⟩ ⟨6, 7⟩) =
+      [(.ls [⟨0, 0⟩, ⟨1, 0⟩], .ln ⟨5, 5⟩ ⟨6, 7⟩), (.ls [⟨0, 2⟩, ⟨1, 3⟩], .ln ⟨5, 5⟩ ⟨6, 7⟩)] := by
+    simp [calls, callsFuel, callsF, expand, kindOf, multiMembers, geomW, Base.ofGeom?]
+  rw [hc] at hxy
+  simp only [List.mem_cons, List.mem_nil_iff, or_false] at hxy
+  rcases hxy with rfl | rfl <;> exact ⟨by simp [linOk, segs], trivial, trivial⟩
+
 /-! ### 6. symmetry by construction, wrapper invariance -/
 
 /-- dimension class of a single-part operand: point, line, line string, areal -/
@@ -241,6 +347,17 @@ def baseRank : Base → Nat
   | .ln _ _ => 1
   | .ls _ => 2
   | _ => 3
+
+/-- **true minimum** (see `baseD_linear_is_min_partial`): without a Point × LineString pair no hypothesis about the tolerance test is needed -/
+theorem baseD_linear_is_min {x y : Base} (hx : linOk x) (hy : linOk y)
+    (hk : baseRank x + baseRank y ≠ 2 ∨ baseRank x = 1) :
+    ∃ m, baseD x y = .fin m ∧ IsMinDist (linPts x) (linPts y) m := by
+  apply baseD_lin_IsMinDist hx hy
+  cases x <;> cases y <;> simp [baseRank] at hk <;> trivial
+
+example : linOk (.ln ⟨0, 0⟩ ⟨1, 1⟩) ∧ linOk (.ls [⟨0, 3⟩, ⟨2, 2⟩]) ∧
+    (baseRank (.ln ⟨0, 0⟩ ⟨1, 1⟩) + baseRank (.ls [⟨0, 3⟩, ⟨2, 2⟩]) ≠ 2 ∨ baseRank (.ln ⟨0, 0⟩ ⟨1, 1⟩) = 1) :=
+  ⟨trivial, by simp [linOk, segs], Or.inr rfl⟩
 
 /-- **dist2_symm**, mixed pairs: the `symmetric_distance_impl!` pairs are symmetric by construction -/
 theorem baseD_symm_mixed (x y : Base) (h : baseRank x ≠ baseRank y) : baseD x y = baseD y x := by
@@ -266,7 +383,13 @@ theorem lsLs_dist_symm (as bs : List Pt) : lsLs2 as bs = lsLs2 bs as := by
 `Polygon: Intersects<Polygon>` short-circuit and the two containment branches of `Polygon × Polygon`
 are not written symmetrically — their agreement for exchanged operands rests on validity (S2) and is
 what the correspondence checks bit for bit on every case (`FAIL:asymmetric`).
-   theorem polyPoly_symm (a b) : polyPoly2 a b = polyPoly2 b a       -- full statement, not proved -/
+   theorem polyPoly_symm (a b) : polyPoly2 a b = polyPoly2 b a       -- full statement: FALSE without
+   validity (`polyPoly_symm_invalid_witness`); for valid operands it needs "a hole of one polygon met
+   by the other ⇒ the exteriors/interiors meet" (Jordan-type reasoning about rings, S2), not proved.
+   The symmetry lemmas of C02 (`intersectsM_symm_partial`) cover every primitive pair *except*
+   Polygon × Polygon and Triangle × Triangle, precisely because of this asymmetric body.
+   Proved unconditionally: polygons without holes (`polyPoly_symm_noholes`), which covers all
+   Rect / Triangle pairs (`baseD_symm_rect_triangle`). -/
 theorem polyPoly_symm_partial (a b : Poly) (hI : polyPolyIntersects a b = polyPolyIntersects b a)
     (hA : (!a.ints.isEmpty && ringContainsCoord a.ext (b.ext.headD ⟨0, 0⟩)) = false)
     (hB : (!b.ints.isEmpty && ringContainsCoord b.ext (a.ext.headD ⟨0, 0⟩)) = false)
@@ -278,6 +401,31 @@ theorem polyPoly_symm_partial (a b : Poly) (hI : polyPolyIntersects a b = polyPo
 
 example : polyPolyIntersects ⟨[⟨0, 0⟩, ⟨1, 0⟩, ⟨0, 1⟩, ⟨0, 0⟩], []⟩ ⟨[⟨3, 3⟩, ⟨4, 3⟩, ⟨3, 4⟩, ⟨3, 3⟩], []⟩ =
     polyPolyIntersects ⟨[⟨3, 3⟩, ⟨4, 3⟩, ⟨3, 4⟩, ⟨3, 3⟩], []⟩ ⟨[⟨0, 0⟩, ⟨1, 0⟩, ⟨0, 1⟩, ⟨0, 0⟩], []⟩ := by
+  decide +kernel
+
+/-- **dist2_symm**, `Polygon × Polygon` for polygons without holes: unconditional (no validity, empty
+exteriors included) -/
+theorem polyPoly_symm_noholes (a b : Poly) (ha : a.ints = []) (hb : b.ints = []) :
+    polyPoly2 a b = polyPoly2 b a :=
+  polyPoly2_symm_noholes ha hb
+
+example : (⟨[⟨0, 0⟩, ⟨1, 0⟩, ⟨0, 1⟩, ⟨0, 0⟩], []⟩ : Poly).ints = [] := rfl
+
+/-- **dist2_symm**, all pairs of Rect / Triangle operands (they are hole-free polygons) -/
+theorem baseD_symm_rect_triangle (mn mx mn' mx' a b c x y z : Pt) :
+    baseD (.rc mn mx) (.rc mn' mx') = baseD (.rc mn' mx') (.rc mn mx) ∧
+    baseD (.tr a b c) (.tr x y z) = baseD (.tr x y z) (.tr a b c) ∧
+    baseD (.rc mn mx) (.tr a b c) = baseD (.tr a b c) (.rc mn mx) :=
+  ⟨polyPoly2_symm_noholes rfl rfl, polyPoly2_symm_noholes rfl rfl, rfl⟩
+
+/-- the hypothesis-free `polyPoly_symm` is false: for an *invalid* second operand (a "hole" ring
+outside its exterior ring, lying inside the first operand) `Polygon: Intersects<Polygon>` answers
+differently for the two orders, so the distance is 0 one way and positive the other way. (Outside the
+domain of the property — valid operands — but it shows that any proof must use validity.) -/
+theorem polyPoly_symm_invalid_witness :
+    let a : Poly := ⟨[⟨0, 0⟩, ⟨4, 0⟩, ⟨0, 4⟩, ⟨0, 0⟩], []⟩
+    let b : Poly := ⟨[⟨3, 3⟩, ⟨4, 3⟩, ⟨4, 4⟩, ⟨3, 3⟩], [[⟨1, 1⟩, ⟨2, 1⟩, ⟨1, 2⟩, ⟨1, 1⟩]]⟩
+    polyPoly2 a b = .fin 0 ∧ polyPoly2 b a = .fin 2 := by
   decide +kernel
 
 /-- **wrapper invariance**: a Rect / Triangle behaves as its `to_polygon()`; against another areal
